@@ -36,11 +36,16 @@ def pooled(array, tag=""):
     import numpy
     if os.environ.get("VERIF_NO_POOL"):
         return array
-    key = (tag, array.shape, array.dtype.str, array.strides)
+    key = (tag, array.shape, array.dtype.str, array.strides, bool(array.flags.writeable))
     buffer = _POOL.get(key)
     if buffer is None:
         _POOL[key] = array
         return array
+    if not buffer.flags.writeable:  # a read-only argument: only its owner (this harness) refills it
+        buffer.setflags(write=True)
+        numpy.copyto(buffer, array)
+        buffer.setflags(write=False)
+        return buffer
     numpy.copyto(buffer, array)
     return buffer
 
@@ -56,6 +61,12 @@ def relayout(array, layout):
         return numpy.ascontiguousarray(array.astype(layout))
     if layout in (None, "C"):
         return numpy.ascontiguousarray(array)
+    if layout == "readonly":
+        # an array the caller cannot (and the library must not) write to: memory-mapped files, broadcast views,
+        # arrays frozen on purpose - any in-place scratch use of an argument raises instead of going unnoticed
+        frozen = numpy.array(array, copy=True, order="C")
+        frozen.setflags(write=False)
+        return frozen
     if layout == "F":
         return numpy.asfortranarray(array)
     if layout == "strided":
@@ -336,7 +347,13 @@ def edits(draw, s, count, alphabet="ACGT"):
     return out
 
 
-FOREIGN = "acgtNn-U0 1é中\n\t\r\x00\uff21\uff23\uff27\uff34\U0001d400\u24b6\u1d2c"  # incl. full-width / compatibility forms of A C G T
+# incl. full-width / compatibility forms of A C G T, line separators of every kind, and lone surrogates (ordinary str
+# values: text read with errors="surrogateescape", json.loads of an escaped half pair) that no codec can encode
+FOREIGN = ("acgtNn-U0 1é中\n\t\r\x00\uff21\uff23\uff27\uff34\U0001d400\u24b6\u1d2c"
+           "\x0b\x0c\x1c\x85\u2028\u2029\ud800\udfff\udc80")
+# characters that string tools treat as "nothing" at the end of a line / text (regex `$`, strip, splitlines, C strings)
+TAIL_TRICKS = ["\n", "\r", "\r\n", " ", "\t", "\x00", "\x0b", "\x0c", "\x1c", "\x85", "\u2028", "\u2029", "\n\n",
+               "\ufeff", "\u200b"]
 
 
 @st.composite
